@@ -1,7 +1,8 @@
 (* EnumProofs.v — theorems about the enum-rule scanner model (Enum/EnumScanner.v):
    P1 no panic (scan, Len, Check); P2 spans and error positions lie inside the input;
    P3 Len returns a stable prefix length; P4 agreement with the JSON scanner on plain JSON
-   arrays.
+   arrays; P5 a text that ends right after the first byte of // or /* is refused
+   (fix 0219b8c).
 
    Plan:
    0. generalities: byte classes, [text] (the slice data[b:idx]), [pf] (process_finds without
@@ -10,7 +11,9 @@
       every literal state; a finished literal can always be classified (enum_item <> None);
    2. the reachable-configuration invariant [Inv] and its preservation by one step;
    3. a generic invariant principle for [run]; no panic;
-   4. spans; 5. Len; 6. simulation by the JSON scanner. *)
+   4. spans; 5. Len; 6. simulation by the JSON scanner; 7. the unfinished annotation opener.
+   [etail] (section 3) is the end-of-input rule of [scan]: the refusal of the unfinished
+   opener, else [tail]. *)
 From Coq Require Import List NArith ZArith Bool Arith Lia.
 From Coq Require Import ZifyBool ZifyNat ZifyN.
 From Coq Require Import Strings.Byte.
@@ -206,6 +209,10 @@ Proof.
   rewrite app_nil_r in Hr2. rewrite Hr2. cbn [NumModel.nrun].
   cbn [NumModel.a_finished NumModel.a_expBegin NumModel.a_intLen NumModel.a_fraLen NumModel.a_negative
        negb Nat.eqb].
+  (* setExp's bound (max_exponent_zeros): no exponent, nothing to refuse *)
+  match goal with |- context [orb (Z.ltb ?a ?b) (Z.ltb ?c ?d)] =>
+    replace (orb (Z.ltb a b) (Z.ltb c d)) with false
+      by (symmetry; unfold NumModel.max_exponent_zeros; apply orb_false_iff; split; apply Z.ltb_ge; lia) end.
   replace (Z.ltb (Z.of_nat (length ip) + 0) 0) with false by lia.
   cbn [Z.sub Z.add Z.opp Z.ltb Z.compare Z.to_nat].
   unfold NumModel.normalise.
@@ -888,11 +895,33 @@ Proof.
   split; [exact H1|]. split; [exact H2|]. split; [exact H3|lia].
 Qed.
 
+(* the end-of-input rule of [scan]: a text that ends right after the first byte of // or /*
+   is refused before processTail looks at the stack (fix 0219b8c) *)
+Definition etail (s : sc) (idx : N) (racc : list lexev) : list lexev * outcome :=
+  match s_step s with
+  | StAnyAnnotationStart => (racc, Err code_unexpected_eof (idx - 1)%N)
+  | _ => tail (s_unf s) (s_stack s) idx idx racc
+  end.
+
+Lemma etail_cases s idx racc :
+  (s_step s = StAnyAnnotationStart /\ etail s idx racc = (racc, Err code_unexpected_eof (idx - 1)%N)) \/
+  (s_step s <> StAnyAnnotationStart /\ etail s idx racc = tail (s_unf s) (s_stack s) idx idx racc).
+Proof.
+  unfold etail. destruct (s_step s); try (right; split; [discriminate|reflexivity]).
+  left. split; reflexivity.
+Qed.
+
+Lemma etail_out s idx racc :
+  snd (etail s idx racc) = Eos \/ exists c p, snd (etail s idx racc) = Err c p.
+Proof.
+  destruct (etail_cases s idx racc) as [[_ ->]|[_ ->]]; [right; do 2 eexists; reflexivity|apply tail_out].
+Qed.
+
 Lemma scan_cases lc bs :
   scan lc bs =
   let r := run lc bs sc0 0%N bs [] in
   match r_out r with
-  | Done => let t := tail (s_unf (r_sc r)) (s_stack (r_sc r)) (r_idx r) (r_idx r) (r_evs r) in
+  | Done => let t := etail (r_sc r) (r_idx r) (r_evs r) in
             (frev (fst t), snd t)
   | o => (frev (r_evs r), o)
   end.
@@ -900,7 +929,8 @@ Proof.
   unfold scan. destruct (run lc bs sc0 0%N bs []) as [[[racc o] s] idx].
   unfold r_out, r_sc, r_idx, r_evs. cbn [fst snd].
   destruct o; try reflexivity.
-  destruct (tail (s_unf s) (s_stack s) idx idx racc) as [racc' o']. reflexivity.
+  unfold etail. destruct (s_step s); try reflexivity;
+    destruct (tail (s_unf s) (s_stack s) idx idx racc) as [racc' o']; reflexivity.
 Qed.
 
 (* P1 *)
@@ -910,8 +940,7 @@ Proof.
   destruct (run0_invariant lc bs (fun _ _ _ => True)) as [_ [_ [H _]]]; [auto|exact I|].
   unfold run_end, run_end_at in H.
   destruct (r_out (run lc bs sc0 0%N bs [])) eqn:Eo; cbn [snd]; try discriminate.
-  - destruct (tail_out (s_unf (r_sc (run lc bs sc0 0%N bs []))) (s_stack (r_sc (run lc bs sc0 0%N bs [])))
-              (r_idx (run lc bs sc0 0%N bs [])) (r_idx (run lc bs sc0 0%N bs []))
+  - destruct (etail_out (r_sc (run lc bs sc0 0%N bs [])) (r_idx (run lc bs sc0 0%N bs []))
               (r_evs (run lc bs sc0 0%N bs []))) as [->|[c [p ->]]]; discriminate.
   - contradiction.
 Qed.
@@ -1012,6 +1041,15 @@ Proof.
   rewrite IH; rewrite (IH _ _ [_]); cbn [fst snd]; rewrite <- app_assoc; reflexivity.
 Qed.
 
+Lemma etail_acc s idx racc :
+  etail s idx racc = (fst (etail s idx []) ++ racc, snd (etail s idx [])).
+Proof.
+  destruct (etail_cases s idx racc) as [[E ->]|[E ->]];
+    destruct (etail_cases s idx []) as [[E' ->]|[E' ->]]; try contradiction.
+  - reflexivity.
+  - apply tail_acc.
+Qed.
+
 Definition span_ok (size : N) (e : lexev) : Prop :=
   (e_begin e < size)%N /\
   match e_type e with
@@ -1049,14 +1087,30 @@ Proof.
      | first [left; reflexivity | right; eexists; split; [reflexivity|lia]] ]).
 Qed.
 
+(* nothing has been read yet only in the first state: the position idx - 1 of the refusal
+   of an unfinished annotation opener exists *)
+Lemma etail_spec data size s : Inv data size s -> (size = 0%N -> s_step s = SBegin) ->
+  Forall (span_ok size) (fst (etail s size [])) /\
+  (snd (etail s size []) = Eos \/
+   exists c, snd (etail s size []) = Err c (size - 1)%N /\ (0 < size)%N).
+Proof.
+  intros HI H0. destruct (etail_cases s size []) as [[E ->]|[E ->]]; [|apply (tail_spec data); exact HI].
+  cbn [fst snd]. split; [constructor|]. right. eexists. split; [reflexivity|].
+  destruct (N.eq_dec size 0) as [Z|Z]; [|lia]. rewrite (H0 Z) in E. discriminate E.
+Qed.
+
 Lemma run_spans lc bs :
   let r := run lc bs sc0 0%N bs [] in
-  Inv bs (r_idx r) (r_sc r) /\ Forall (good (r_idx r)) (r_evs r) /\ run_end lc bs r /\
+  Inv bs (r_idx r) (r_sc r) /\
+  (Forall (good (r_idx r)) (r_evs r) /\ (r_idx r = 0%N -> s_step (r_sc r) = SBegin)) /\
+  run_end lc bs r /\
   (r_idx r <= N.of_nat (length bs))%N.
 Proof.
-  apply (run0_invariant lc bs Jspan).
-  - intros. eapply Jspan_step; eassumption.
-  - constructor.
+  apply (run0_invariant lc bs (fun idx s racc => Jspan idx s racc /\ (idx = 0%N -> s_step s = SBegin))).
+  - intros idx s racc c s1 stk' evs HI [HJ _] Hn Hs Hp Hsh Hne. split.
+    + eapply Jspan_step; eassumption.
+    + intros Z. exfalso. lia.
+  - split; [constructor|reflexivity].
 Qed.
 
 (* P2 *)
@@ -1064,15 +1118,15 @@ Theorem enum_spans_inside : forall lc bs evs o, scan lc bs = (evs, o) ->
   Forall (span_ok (N.of_nat (length bs))) evs.
 Proof.
   intros lc bs evs o H. rewrite scan_cases in H. cbv zeta in H.
-  destruct (run_spans lc bs) as [HI [HG [HE Hle]]]. cbv zeta in *.
+  destruct (run_spans lc bs) as [HI [[HG H0] [HE Hle]]]. cbv zeta in *.
   set (r := run lc bs sc0 0%N bs []) in *.
   assert (G0 : Forall (span_ok (N.of_nat (length bs))) (r_evs r)).
   { eapply Forall_impl; [|exact HG]. intros a. apply good_span_ok. exact Hle. }
   destruct (r_out r) eqn:Eo.
   - unfold run_end, run_end_at in HE. rewrite Eo in HE. rewrite HE in *.
-    rewrite tail_acc in H. cbn [fst snd] in H. inversion H; subst evs.
+    rewrite etail_acc in H. cbn [fst snd] in H. inversion H; subst evs.
     rewrite frev_rev. apply Forall_rev. apply Forall_app. split; [|exact G0].
-    exact (proj1 (tail_spec bs _ _ HI)).
+    exact (proj1 (etail_spec bs _ _ HI H0)).
   - inversion H; subst. rewrite frev_rev. apply Forall_rev. exact G0.
   - inversion H; subst. rewrite frev_rev. apply Forall_rev. exact G0.
   - inversion H; subst. rewrite frev_rev. apply Forall_rev. exact G0.
@@ -1082,11 +1136,11 @@ Theorem enum_error_position_inside : forall lc bs c p,
   snd (scan lc bs) = Err c p -> (N.to_nat p < length bs)%nat.
 Proof.
   intros lc bs c p H. rewrite scan_cases in H. cbv zeta in H.
-  destruct (run_spans lc bs) as [HI [_ [HE Hle]]]. cbv zeta in *.
+  destruct (run_spans lc bs) as [HI [[_ H0] [HE Hle]]]. cbv zeta in *.
   set (r := run lc bs sc0 0%N bs []) in *.
   unfold run_end, run_end_at in HE. destruct (r_out r) eqn:Eo; cbn [snd] in H; try discriminate H.
-  - rewrite HE in *. rewrite tail_acc in H. cbn [snd] in H.
-    destruct (tail_spec bs _ _ HI) as [_ [T|[c' [T Hpos]]]].
+  - rewrite HE in *. rewrite etail_acc in H. cbn [snd] in H.
+    destruct (etail_spec bs _ _ HI H0) as [_ [T|[c' [T Hpos]]]].
     + rewrite T in H. discriminate H.
     + rewrite T in H. inversion H; subst. lia.
   - inversion H; subst code pos. destruct HE as [_ [ch [Hn Hs]]].
@@ -1116,8 +1170,8 @@ Lemma scan_not_done lc bs : snd (scan lc bs) <> Done.
 Proof.
   rewrite scan_cases. cbv zeta.
   destruct (r_out (run lc bs sc0 0%N bs [])) eqn:Eo; cbn [snd]; try discriminate.
-  match goal with |- snd (tail ?u ?s ?i ?z ?a) <> _ =>
-    destruct (tail_out u s i z a) as [->|[c [p ->]]]; discriminate end.
+  match goal with |- snd (etail ?s ?i ?a) <> _ =>
+    destruct (etail_out s i a) as [->|[c [p ->]]]; discriminate end.
 Qed.
 
 Lemma length_loop_le size : forall evs len, Forall (span_ok size) evs -> (len <= size)%N ->
@@ -1450,12 +1504,12 @@ Qed.
 (* ---- Len as a function of the run ---- *)
 Definition final_revs (r : rres) : list lexev :=
   match r_out r with
-  | Done => fst (tail (s_unf (r_sc r)) (s_stack (r_sc r)) (r_idx r) (r_idx r) []) ++ r_evs r
+  | Done => fst (etail (r_sc r) (r_idx r) []) ++ r_evs r
   | _ => r_evs r
   end.
 Definition final_out (r : rres) : outcome :=
   match r_out r with
-  | Done => snd (tail (s_unf (r_sc r)) (s_stack (r_sc r)) (r_idx r) (r_idx r) [])
+  | Done => snd (etail (r_sc r) (r_idx r) [])
   | o => o
   end.
 
@@ -1464,7 +1518,7 @@ Lemma scan_final lc bs :
 Proof.
   rewrite scan_cases. cbv zeta. unfold final_revs, final_out.
   destruct (r_out (run lc bs sc0 0%N bs [])); rewrite ?frev_rev; try reflexivity.
-  rewrite tail_acc. reflexivity.
+  rewrite etail_acc. reflexivity.
 Qed.
 
 Definition len_of (bs : bytes) (revs : list lexev) (o : outcome) : verdict * N :=
@@ -1506,6 +1560,16 @@ Proof.
     constructor; [cbn [e_end]; lia|constructor].
 Qed.
 
+Lemma etail_not_endtop s idx : Forall not_endtop (fst (etail s idx [])).
+Proof.
+  destruct (etail_cases s idx []) as [[_ ->]|[_ ->]]; [constructor|apply tail_not_endtop].
+Qed.
+
+Lemma etail_ends s idx : Forall (fun e => (idx - 1 <= e_end e)%N) (fst (etail s idx [])).
+Proof.
+  destruct (etail_cases s idx []) as [[_ ->]|[_ ->]]; [constructor|apply tail_ends; lia].
+Qed.
+
 Lemma run_len bs :
   let r := run true bs sc0 0%N bs [] in
   Inv bs (r_idx r) (r_sc r) /\ Jlen bs (r_idx r) (r_sc r) (r_evs r) /\ run_end true bs r /\
@@ -1521,7 +1585,7 @@ Lemma final_not_endtop bs : Forall not_endtop (final_revs (run true bs sc0 0%N b
 Proof.
   destruct (run_len bs) as [_ [[J1 _] _]]. cbv zeta in J1. unfold final_revs.
   destruct (r_out (run true bs sc0 0%N bs [])); try exact J1.
-  apply Forall_app. split; [apply tail_not_endtop|exact J1].
+  apply Forall_app. split; [apply etail_not_endtop|exact J1].
 Qed.
 
 Lemma raw_final bs :
@@ -1583,9 +1647,9 @@ Proof.
     + destruct (J4 Nq) as [p [c [P1 [P3 [P4 [P5 P6]]]]]].
       assert (Hraw : (p < raw)%N).
       { unfold raw, final_revs. destruct (r_out r) eqn:Er.
-        - pose proof (tail_ends (s_unf (r_sc r)) (s_stack (r_sc r)) (r_idx r) (r_idx r) (N.le_refl _)) as Te.
+        - pose proof (etail_ends (r_sc r) (r_idx r)) as Te.
           unfold run_end, run_end_at in HE. rewrite Er in HE.
-          destruct (fst (tail (s_unf (r_sc r)) (s_stack (r_sc r)) (r_idx r) (r_idx r) [])) as [|e t].
+          destruct (fst (etail (r_sc r) (r_idx r) [])) as [|e t].
           + cbn [app]. destruct (r_evs r) as [|e t]; [congruence|]. apply Forall_inv in P6.
             cbn [raw_of]. destruct (N.eqb (e_end e) size) eqn:Ee; lia.
           + apply Forall_inv in Te. cbn [app raw_of].
@@ -1611,8 +1675,24 @@ Proof. vm_compute. repeat split; reflexivity. Qed.
 (* ---- Len of the text cut at index m, from the configuration reached there ---- *)
 Definition cut_len (bs : bytes) (m : N) (s : sc) (racc : list lexev) : verdict * N :=
   len_of (firstn (N.to_nat m) bs)
-         (fst (tail (s_unf s) (s_stack s) m m []) ++ racc)
-         (snd (tail (s_unf s) (s_stack s) m m [])).
+         (fst (etail s m []) ++ racc)
+         (snd (etail s m [])).
+
+(* [closable] for a configuration: nothing is accepted right after the first byte of an
+   annotation opener *)
+Definition closable2 (m : N) (q : st) (stk : list (ev * N)) (racc : list lexev) : option N :=
+  match q with
+  | StAnyAnnotationStart => None
+  | _ => closable m stk racc
+  end.
+
+Lemma closable2_some m q stk racc raw : closable2 m q stk racc = Some raw ->
+  q <> StAnyAnnotationStart /\ closable m stk racc = Some raw.
+Proof. destruct q; cbn [closable2]; intros H; try discriminate H; split; try discriminate; exact H. Qed.
+
+Lemma closable2_other m q stk racc : q <> StAnyAnnotationStart ->
+  closable2 m q stk racc = closable m stk racc.
+Proof. destruct q; intros H; try reflexivity. congruence. Qed.
 
 Lemma LL_le m racc : Forall (good m) racc -> (LL racc <= m)%N.
 Proof.
@@ -1628,7 +1708,7 @@ Qed.
 
 Lemma cut_len_closable bs m s racc :
   Inv bs m s -> Forall not_endtop racc -> Forall (good m) racc -> (N.to_nat m <= length bs) ->
-  match closable m (s_stack s) racc with
+  match closable2 m (s_step s) (s_stack s) racc with
   | Some raw => (raw <= m)%N /\
       cut_len bs m s racc = (VOk, N.of_nat (trimlen (firstn (N.to_nat raw) (firstn (N.to_nat m) bs))))
   | None => fst (cut_len bs m s racc) <> VOk
@@ -1637,7 +1717,7 @@ Proof.
   intros [Hf Hc Hb Ht] Hne Hg Hm. pose proof (LL_le m racc Hg) as HLL.
   pose proof (raw_of_LL m racc Hg) as Hraw.
   destruct s as [q ret stk uniq finds ann unf trail].
-  cbn_sc_in Hc. cbn_sc_in Hb. unfold cut_len. cbn_sc. clear Ht Hf.
+  cbn_sc_in Hc. cbn_sc_in Hb. unfold cut_len, etail. cbn_sc. clear Ht Hf.
   assert (Hsz : N.of_nat (length (firstn (N.to_nat m) bs)) = m).
   { rewrite firstn_length. lia. }
   assert (HOK : forall tl raw, Forall not_endtop tl -> raw_of m (tl ++ racc) = raw -> (raw <= m)%N ->
@@ -1650,7 +1730,7 @@ Proof.
       by (rewrite <- Hr; destruct (tl ++ racc); reflexivity).
     replace (N.ltb m raw) with false by lia. reflexivity. }
   destruct q; cbn [cinv] in Hc; unfold litstk in *; decomp; try inv_base; subst; inv_map;
-    cbn [closable map fst tail]; try (destruct unf); cbn [tail fst snd app]; try (unfold len_of; cbn [fst]; discriminate);
+    cbn [closable2 closable map fst tail]; try (destruct unf); cbn [tail fst snd app]; try (unfold len_of; cbn [fst]; discriminate);
     repeat match goal with
     | H : Forall (below _) (_ :: _) |- _ =>
       let H1 := fresh "Hb" in pose proof (Forall_inv H) as H1; apply Forall_inv_tail in H;
@@ -1685,17 +1765,43 @@ Proof.
     apply (H (a + k) c); [lia|exact Hk].
 Qed.
 
+(* the byte after the first byte of an annotation opener: if the text may end after it, it
+   is the second '/' of an inline annotation *)
+Lemma step1_from_opener lc data idx s c nxt s1 stk' evs racc raw' :
+  s_finds s = [] -> s_step s = StAnyAnnotationStart ->
+  step1 lc data idx s c nxt = SOk s1 ->
+  pf idx (s_stack s) (s_finds s1) = Some (stk', evs) ->
+  closable (N.succ idx) stk' (rev evs ++ racc) = Some raw' ->
+  raw' = N.succ idx /\ is_blank c = false.
+Proof.
+  destruct s as [q ret stk uniq finds ann unf trail]. cbn_sc. intros -> ->. unfold_step.
+  intros H. brk_hyp H; try discriminate H; injection H as <-; cbn_sc;
+    cbn [pf process_found is_opening]; intros Hp; injection Hp as <- <-;
+    destruct stk as [|[e0 b0] rest]; cbn [closable map fst]; intros Hcl; try discriminate Hcl.
+  injection Hcl as <-. split; [reflexivity|bsolve].
+Qed.
+
 Lemma back_step lc bs idx s racc c s1 stk' evs raw' n :
   Inv bs idx s -> Jlen bs idx s racc ->
   nth_error bs (N.to_nat idx) = Some c ->
   step1 lc bs idx s c (nth_error bs (S (N.to_nat idx))) = SOk s1 ->
   pf idx (s_stack s) (s_finds s1) = Some (stk', evs) ->
-  closable (N.succ idx) stk' (rev evs ++ racc) = Some raw' ->
+  closable2 (N.succ idx) (s_step s1) stk' (rev evs ++ racc) = Some raw' ->
   trimlen (firstn (N.to_nat raw') (firstn (N.to_nat (N.succ idx)) bs)) = n -> n <= N.to_nat idx ->
-  exists raw, closable idx (s_stack s) racc = Some raw /\
+  exists raw, closable2 idx (s_step s) (s_stack s) racc = Some raw /\
               trimlen (firstn (N.to_nat raw) (firstn (N.to_nat idx) bs)) = n.
 Proof.
-  intros HI [J1 [J2 [J3 [J4 J5]]]] Hn Hs Hp Hcl Ht Hle.
+  intros HI [J1 [J2 [J3 [J4 J5]]]] Hn Hs Hp Hcl2 Ht Hle.
+  destruct (closable2_some _ _ _ _ _ Hcl2) as [_ Hcl].
+  assert (Hlt0 : N.to_nat idx < length bs) by (apply nth_error_Some; congruence).
+  assert (Hq : s_step s <> StAnyAnnotationStart).
+  { intros Eq.
+    destruct (step1_from_opener lc bs idx s c _ s1 stk' evs racc raw' (inv_finds _ _ _ HI) Eq Hs Hp Hcl)
+      as [-> Hnb].
+    rewrite firstn_all2 in Ht by (rewrite firstn_length; lia).
+    rewrite (firstn_succ_nth bs idx c Hn) in Ht.
+    rewrite trimlen_snoc_nb in Ht by exact Hnb. rewrite firstn_length in Ht. lia. }
+  rewrite (closable2_other idx _ (s_stack s) racc Hq). clear Hq Hcl2.
   assert (Hlt : N.to_nat idx < length bs) by (apply nth_error_Some; congruence).
   pose proof (LL_le idx racc J2) as HLL.
   destruct HI as [Hf Hc Hb Htx].
@@ -1762,7 +1868,7 @@ Proof.
       pose proof HJ' as [K1 [K2 _]].
       pose proof (cut_len_closable bs (N.succ idx) _ _ G4 K1 K2 ltac:(lia)) as C1.
       cbn_sc_in C1.
-      destruct (closable (N.succ idx) stk' (rev evs ++ racc)) as [raw'|] eqn:Ecl.
+      destruct (closable2 (N.succ idx) (s_step s1) stk' (rev evs ++ racc)) as [raw'|] eqn:Ecl.
       * destruct C1 as [_ C1]. rewrite C1 in IH. injection IH as Ht. apply Nat2N.inj in Ht.
         destruct (back_step true bs idx s racc c s1 stk' evs raw' n HI HJ Hn E1 G3 Ecl Ht Hn')
           as [raw [R1 R2]].
@@ -1775,6 +1881,8 @@ Proof.
       assert (Hst : map fst (s_stack s) = []).
       { destruct (map fst (s_stack s)); [reflexivity|discriminate Hid]. }
       pose proof (cut_len_closable bs idx s racc HI J1 J2 ltac:(lia)) as C2.
+      rewrite closable2_other in C2
+        by (intros Eq; rewrite Eq in Hid; destruct (map fst (s_stack s)); discriminate Hid).
       unfold closable in C2. rewrite Hst in C2. destruct C2 as [C3 C2]. rewrite C2.
       rewrite firstn_firstn_le by lia.
       unfold len_of in H. cbv zeta in H.
@@ -1953,9 +2061,9 @@ Proof.
     pose proof (back_run bs k rest' (r_sc r1) (r_idx r1) (r_evs r1) Hsk ltac:(lia) HI HJ H ltac:(lia)) as C.
     pose proof HJ as [J1 [J2 _]].
     pose proof (cut_len_closable bs (r_idx r1) (r_sc r1) (r_evs r1) HI J1 J2 ltac:(lia)) as C2.
-    destruct (closable (r_idx r1) (s_stack (r_sc r1)) (r_evs r1)) as [raw|] eqn:Ecl;
+    destruct (closable2 (r_idx r1) (s_step (r_sc r1)) (s_stack (r_sc r1)) (r_evs r1)) as [raw|] eqn:Ecl;
       [|rewrite C in C2; exfalso; apply C2; reflexivity].
-    pose proof (closable_not_mlend bs _ _ _ _ HI Ecl) as Hml.
+    pose proof (closable_not_mlend bs _ _ _ _ HI (proj2 (closable2_some _ _ _ _ _ Ecl))) as Hml.
     assert (Hrun : run true p sc0 0%N p [] = r1).
     { rewrite run_runl. unfold p at 1. rewrite runl_data by (try lia; rewrite Hp; cbn; lia).
       apply runl_la_none; [exact Eo|exact Hml]. }
@@ -2246,11 +2354,12 @@ Proof.
 Qed.
 
 Lemma tail_plain_eos data m s : Inv data m s -> plainb (s_step s) = true ->
-  snd (tail (s_unf s) (s_stack s) m m []) = Eos -> s_stack s = [].
+  snd (etail s m []) = Eos -> s_stack s = [] /\ fst (etail s m []) = [].
 Proof.
-  intros [_ Hc _ _] Hp. destruct s as [q ret stk uniq finds ann unf trail]. cbn_sc_in Hc. cbn_sc_in Hp. cbn_sc.
+  intros [_ Hc _ _] Hp. destruct s as [q ret stk uniq finds ann unf trail]. cbn_sc_in Hc. cbn_sc_in Hp.
+  unfold etail. cbn_sc.
   destruct q; try discriminate Hp; cbn [cinv] in Hc; unfold litstk in *; decomp; subst; inv_map;
-    cbn [tail]; try (destruct unf); cbn [tail snd]; try discriminate; reflexivity.
+    cbn [tail]; try (destruct unf); cbn [tail fst snd]; try discriminate; split; reflexivity.
 Qed.
 
 (* P4 *)
@@ -2268,9 +2377,10 @@ Proof.
   unfold run_end, run_end_at in HE. pose proof HJ as [_ [Hpl _]].
   destruct (r_out r) eqn:Eo.
   - (* the input is exhausted *)
-    rewrite tail_acc in H. cbn [fst snd] in H. injection H as Hev Hout.
+    rewrite etail_acc in H. cbn [fst snd] in H. injection H as Hev Hout.
     pose proof (tail_plain_eos bs _ _ HI Hpl) as Hst. rewrite HE in Hst. rewrite HE in Hev, Hout.
-    specialize (Hst Hout). rewrite Hst in Hev. cbn [tail fst app] in Hev.
+    destruct (Hst Hout) as [Hst0 Hst1]. clear Hst. rename Hst0 into Hst.
+    rewrite Hst1 in Hev. cbn [app] in Hev.
     destruct (sim_run bs bs sc0 0%N [] Scanner.cfg0 [] eq_refl (Inv0 bs) eq_refl eq_refl eq_refl eq_refl
                 Hnc eq_refl Eo) as [k' [Hrun Hk]].
     fold r in Hrun, Hk. rewrite Hst in Hk. cbn [jstk map] in Hk.
@@ -2297,4 +2407,232 @@ Example enum_agree_example :
    (Scanner.LiteralEnd, 4, 6); (Scanner.ArrayItemEnd, 4, 6); (Scanner.ArrayEnd, 0, 7)]%N /\
   (* a comment is refused by [no_comment] *)
   no_comment [x5b; x5d; x2f; x2f] = false.
+Proof. vm_compute. repeat split; reflexivity. Qed.
+
+(* ================================================================== *)
+(* 7. a text never ends right after the first byte of // or /*         *)
+(* ================================================================== *)
+(* an accepted text does not leave the scanner in the state switchToAnnotation installs;
+   [r_sc (run lc bs sc0 0 bs [])] is the scanner structure when Next() stops reading *)
+Theorem enum_scan_eos_not_in_opener : forall lc bs evs, scan lc bs = (evs, Eos) ->
+  s_step (r_sc (run lc bs sc0 0%N bs [])) <> StAnyAnnotationStart.
+Proof.
+  intros lc bs evs H. rewrite scan_cases in H. cbv zeta in H.
+  destruct (run0_invariant lc bs (fun _ _ _ => True)) as [HI [_ [HE _]]]; [auto|exact I|].
+  cbv zeta in *. set (r := run lc bs sc0 0%N bs []) in *.
+  unfold run_end, run_end_at in HE. destruct (r_out r) eqn:Eo; try discriminate H.
+  - destruct (etail_cases (r_sc r) (r_idx r) (r_evs r)) as [[_ E]|[E _]]; [|exact E].
+    rewrite E in H. discriminate H.
+  - destruct HE as [_ [c [_ Hs]]]. pose proof (step1_eos_idle _ _ _ _ _ _ HI Hs) as Hid.
+    intros E. rewrite E in Hid. destruct (map fst (s_stack (r_sc r))); discriminate Hid.
+Qed.
+
+(* and the converse: a text read to its end in that state is refused with ErrUnexpectedEOF at
+   its last byte, after the events delivered so far *)
+Theorem enum_scan_opener_eof : forall lc bs,
+  let r := run lc bs sc0 0%N bs [] in
+  r_out r = Done -> s_step (r_sc r) = StAnyAnnotationStart ->
+  bs <> [] /\
+  scan lc bs = (rev (r_evs r), Err code_unexpected_eof (N.of_nat (length bs) - 1)%N).
+Proof.
+  intros lc bs r Eo E. destruct (run_spans lc bs) as [_ [[_ H0] [HE _]]]. cbv zeta in *. fold r in H0, HE.
+  unfold run_end, run_end_at in HE. rewrite Eo in HE. split.
+  - intros ->. cbn [length N.of_nat] in HE. rewrite (H0 HE) in E. discriminate E.
+  - rewrite scan_cases. cbv zeta. fold r. rewrite Eo. unfold etail. rewrite E. cbn [fst snd].
+    rewrite frev_rev, HE. reflexivity.
+Qed.
+
+(* errEOS before the end of the input is length-computing mode only *)
+Lemma step1_trail data idx q ret stk uniq ann unf c nxt :
+  cinv q ret (map fst stk) ann ->
+  match step1 false data idx (mksc q ret stk uniq [] ann unf false) c nxt with
+  | SOk s1 => s_trail s1 = false
+  | SEos => False
+  | _ => True
+  end.
+Proof.
+  intros Hc.
+  destruct q; cbn [cinv] in Hc; unfold litstk in *; decomp; try inv_base; subst; inv_map.
+  all: unfold_step.
+  all: try match goal with |- context [validate_value ?d ?i ?s'] =>
+    let Hvs := fresh "Hvs" in
+    pose proof (validate_shape d i s') as Hvs;
+    destruct (validate_value d i s') as [r|s2];
+    [destruct r; try contradiction; try exact I
+    |let k := fresh "k" in destruct Hvs as [k ->]] end.
+  all: cbn_sc.
+  all: brk_goal.
+  all: try exact I; try reflexivity.
+Qed.
+
+Definition Jcheck (data : bytes) (idx : N) (s : sc) (racc : list lexev) : Prop :=
+  Jlen data idx s racc /\ s_trail s = false.
+
+Lemma Jcheck_step data idx s racc c s1 stk' evs :
+  Inv data idx s -> Jcheck data idx s racc ->
+  nth_error data (N.to_nat idx) = Some c ->
+  step1 false data idx s c (nth_error data (S (N.to_nat idx))) = SOk s1 ->
+  pf idx (s_stack s) (s_finds s1) = Some (stk', evs) ->
+  shape_ok (s_finds s1) -> noet (s_finds s1) = true ->
+  Jcheck data (N.succ idx) (set_finds [] (set_stack stk' s1)) (rev evs ++ racc).
+Proof.
+  intros HI [HJ Ht] Hn Hs Hp Hsh Hne. split; [eapply Jlen_step; eassumption|]. cbn_sc.
+  destruct HI as [Hf Hc _ _]. destruct s as [q ret stk uniq finds ann unf trail].
+  cbn_sc_in Hf. cbn_sc_in Hc. cbn_sc_in Ht. subst finds trail.
+  pose proof (step1_trail data idx q ret stk uniq ann unf c (nth_error data (S (N.to_nat idx))) Hc) as A.
+  rewrite Hs in A. exact A.
+Qed.
+
+(* Check mode reads the whole text unless it meets an error *)
+Lemma run_check bs :
+  let r := run false bs sc0 0%N bs [] in
+  Inv bs (r_idx r) (r_sc r) /\ Jcheck bs (r_idx r) (r_sc r) (r_evs r) /\ run_end false bs r /\
+  r_out r <> Eos.
+Proof.
+  destruct (run0_invariant false bs (Jcheck bs)) as [HI [HJ [HE _]]].
+  - intros idx s racc c s1 stk' evs HI0 HJ0 Hn0 Hs0 Hp0 Hsh0 Hne0. eapply Jcheck_step; eassumption.
+  - split; [apply Jlen0|reflexivity].
+  - cbv zeta in *. split; [exact HI|]. split; [exact HJ|]. split; [exact HE|].
+    intros Eo. unfold run_end, run_end_at in HE. rewrite Eo in HE. destruct HE as [_ [c [_ Hs]]].
+    destruct HI as [Hf Hc _ _]. destruct HJ as [_ Ht].
+    destruct (r_sc (run false bs sc0 0%N bs [])) as [q ret stk uniq finds ann unf trail].
+    cbn_sc_in Hf. cbn_sc_in Hc. cbn_sc_in Ht. subst finds trail.
+    pose proof (step1_trail bs (r_idx (run false bs sc0 0%N bs [])) q ret stk uniq ann unf c
+                  (nth_error bs (S (N.to_nat (r_idx (run false bs sc0 0%N bs []))))) Hc) as A.
+    rewrite Hs in A. exact A.
+Qed.
+
+(* a look-ahead byte other than '/' is as good as none *)
+Lemma step1_la_noslash lc data idx s c d : ch d 47 = false ->
+  step1 lc data idx s c (Some d) = step1 lc data idx s c None.
+Proof.
+  intros H. unfold step1, multi_line_annotation_text. rewrite H, !andb_false_r. reflexivity.
+Qed.
+
+Lemma dispatch_la_noslash lc data idx c d : ch d 47 = false -> forall f s,
+  dispatch f lc data idx s c (Some d) = dispatch f lc data idx s c None.
+Proof.
+  intros H. induction f as [|f IH]; intros s; cbn [dispatch]; rewrite (step1_la_noslash _ _ _ _ _ _ H).
+  - reflexivity.
+  - destruct (step1 lc data idx s c None); try reflexivity. apply IH.
+Qed.
+
+Lemma runl_la_noslash lc data d : ch d 47 = false -> forall bs s idx racc,
+  runl lc data s idx bs (Some d) racc = runl lc data s idx bs None racc.
+Proof.
+  intros H. induction bs as [|c r IH]; intros s idx racc; cbn [runl]; [reflexivity|].
+  destruct r as [|d' r'].
+  - unfold step. rewrite (dispatch_la_noslash _ _ _ _ _ H). reflexivity.
+  - destruct (step lc data idx s c (Some d')) as [s1|code pos| | |s']; try reflexivity.
+    destruct (process_finds idx (s_stack s1) (s_finds s1) racc) as [[stk' racc'] ok].
+    destruct ok; [|reflexivity]. apply IH.
+Qed.
+
+(* the run over bs ++ [a; '/'] is the run over bs, then two more bytes *)
+Lemma run_snoc2 lc bs a : ch a 47 = false ->
+  run lc (bs ++ [a; x2f]) sc0 0%N (bs ++ [a; x2f]) [] =
+  let r := run lc bs sc0 0%N bs [] in
+  match r_out r with
+  | Done => runl lc (bs ++ [a; x2f]) (r_sc r) (r_idx r) [a; x2f] None (r_evs r)
+  | _ => r
+  end.
+Proof.
+  intros Ha. rewrite run_runl, runl_app. cbv zeta.
+  rewrite (runl_la_noslash _ _ _ Ha).
+  assert (Hf : firstn (length bs) (bs ++ [a; x2f]) = bs).
+  { rewrite firstn_app, Nat.sub_diag, firstn_all. cbn [firstn]. apply app_nil_r. }
+  pose proof (runl_data lc (bs ++ [a; x2f]) (length bs)) as R.
+  specialize (R ltac:(rewrite app_length; lia) bs sc0 0%N None [] ltac:(cbn; lia)).
+  rewrite Hf in R. rewrite <- R, <- run_runl. reflexivity.
+Qed.
+
+(* two more bytes, a blank and '/', from a configuration in which the text may end *)
+Lemma two_more data m s a racc :
+  s_finds s = [] -> cinv (s_step s) (s_ret s) (map fst (s_stack s)) (s_ann s) ->
+  snd (etail s m []) = Eos -> s_step s <> SBegin -> s_trail s = false ->
+  (a = x0a \/ (a = x20 /\ s_stack s = [])) ->
+  exists racc' s', runl false data s m [a; x2f] None racc = (racc', Done, s', N.succ (N.succ m)) /\
+                   s_step s' = StAnyAnnotationStart.
+Proof.
+  intros Hf Hc He Hq Ht Ha. destruct s as [q ret stk uniq finds ann unf trail].
+  cbn_sc_in Hf. cbn_sc_in Hc. cbn_sc_in Hq. cbn_sc_in Ht. cbn_sc_in Ha. subst finds trail.
+  unfold etail in He. cbn_sc_in He. revert Ha.
+  destruct q; cbn [cinv] in Hc; unfold litstk in *; decomp; try inv_base; subst; inv_map;
+    cbn [tail] in He; try (destruct unf); cbn [tail snd] in He; try discriminate He; try congruence.
+  all: intros [->|[-> Hs]]; try discriminate Hs.
+  all: cbv -[N.succ N.sub N.add].
+  all: do 2 eexists; split; reflexivity.
+Qed.
+
+Lemma scan_appended_opener bs a :
+  (a = x0a \/ (a = x20 /\ s_stack (r_sc (run false bs sc0 0%N bs [])) = [])) ->
+  snd (scan false bs) = Eos -> forallb is_blank bs = false ->
+  snd (scan false (bs ++ [a; x2f])) = Err code_unexpected_eof (N.of_nat (length bs) + 1)%N.
+Proof.
+  intros Ha H Hnb. destruct (run_check bs) as [HI [[HJ Ht] [HE Hne]]]. cbv zeta in *.
+  set (r := run false bs sc0 0%N bs []) in *.
+  rewrite scan_cases in H. cbv zeta in H. fold r in H.
+  unfold run_end, run_end_at in HE.
+  destruct (r_out r) eqn:Eo; cbn [snd] in H; try discriminate H; [|congruence].
+  rewrite etail_acc in H. cbn [snd] in H.
+  assert (Hq : s_step (r_sc r) <> SBegin).
+  { intros Eq. destruct HJ as [_ [_ [J3 _]]]. destruct (J3 Eq) as [_ Hbl].
+    rewrite HE, Nat2N.id, firstn_all in Hbl. congruence. }
+  destruct (two_more (bs ++ [a; x2f]) (r_idx r) (r_sc r) a (r_evs r)
+              (inv_finds _ _ _ HI) (inv_c _ _ _ HI) H Hq Ht Ha) as [racc' [s' [Hrun Hstep]]].
+  assert (Hsl : ch a 47 = false) by (destruct Ha as [->|[-> _]]; reflexivity).
+  rewrite scan_cases. cbv zeta. rewrite (run_snoc2 false bs a Hsl). cbv zeta. fold r.
+  rewrite Eo, Hrun. unfold r_out, r_sc, r_idx, r_evs. cbn [fst snd]. unfold etail. rewrite Hstep.
+  cbn [snd]. f_equal. unfold r_idx in HE. lia.
+Qed.
+
+(* P5: after a text the scanner accepts (other than a blank one, to which the array has yet to
+   come), a new line and a single '/' are refused: unexpected end at the '/' *)
+Theorem enum_scan_opener_after_newline_refused : forall bs,
+  snd (scan false bs) = Eos -> forallb is_blank bs = false ->
+  snd (scan false (bs ++ [x0a; x2f])) = Err code_unexpected_eof (N.of_nat (length bs) + 1)%N.
+Proof. intros bs. apply scan_appended_opener. left. reflexivity. Qed.
+
+(* the same with a space, when the accepted text does not end inside an inline annotation
+   (nothing is left open: there a '/' is annotation text) *)
+Theorem enum_scan_opener_after_space_refused : forall bs,
+  snd (scan false bs) = Eos -> forallb is_blank bs = false ->
+  s_stack (r_sc (run false bs sc0 0%N bs [])) = [] ->
+  snd (scan false (bs ++ [x20; x2f])) = Err code_unexpected_eof (N.of_nat (length bs) + 1)%N.
+Proof. intros bs H Hnb Hs. apply scan_appended_opener; auto. Qed.
+
+(* in particular when the accepted text has no '/' outside strings *)
+Theorem enum_scan_opener_after_space_refused_plain : forall bs,
+  snd (scan false bs) = Eos -> forallb is_blank bs = false -> no_comment bs = true ->
+  snd (scan false (bs ++ [x20; x2f])) = Err code_unexpected_eof (N.of_nat (length bs) + 1)%N.
+Proof.
+  intros bs H Hnb Hnc. apply enum_scan_opener_after_space_refused; [exact H|exact Hnb|].
+  destruct (run_check bs) as [_ [_ [_ Hne]]].
+  destruct (run0_invariant false bs (Jplain bs)) as [HI [HJ [HE _]]].
+  { intros idx s racc c s1 stk' evs HI0 HJ0 Hn0 Hs0 Hp0 Hsh0 Hne0. eapply Jplain_step; eassumption. }
+  { unfold Jplain. cbn. auto. }
+  cbv zeta in *. set (r := run false bs sc0 0%N bs []) in *.
+  rewrite scan_cases in H. cbv zeta in H. fold r in H. destruct HJ as [_ [Hpl _]].
+  unfold run_end, run_end_at in HE.
+  destruct (r_out r) eqn:Eo; cbn [snd] in H; try discriminate H; [|congruence].
+  rewrite etail_acc in H. cbn [snd] in H.
+  exact (proj1 (tail_plain_eos bs _ _ HI Hpl H)).
+Qed.
+
+(* both side conditions are needed *)
+Example enum_scan_opener_side_conditions :
+  (* a blank text is accepted; the '/' then stands where the array is expected *)
+  snd (scan false []) = Eos /\
+  snd (scan false ([] ++ [x0a; x2f])) = Err code_enum_array_expected 1%N /\
+  (* "[]//" is accepted; in "[]// /" the last '/' is annotation text *)
+  snd (scan false [x5b; x5d; x2f; x2f]) = Eos /\
+  snd (scan false ([x5b; x5d; x2f; x2f] ++ [x20; x2f])) = Eos /\
+  snd (scan false ([x5b; x5d; x2f; x2f] ++ [x0a; x2f])) = Err code_unexpected_eof 5%N /\
+  (* the consumers: Check refuses "[1] /" and "[1]/", and so does Len (in length-computing mode
+     '/' is tried as an annotation before the text after the array is given up) *)
+  enum_check [x5b; x31; x5d; x20; x2f] = VErr code_unexpected_eof 4%N /\
+  enum_len [x5b; x31; x5d; x20; x2f] = (VErr code_unexpected_eof 4%N, 0%N) /\
+  enum_len [x5b; x31; x5d; x2f] = (VErr code_unexpected_eof 3%N, 0%N) /\
+  enum_len [x5b; x31; x5d; x20; x2f; x78] = (VErr code_invalid_character 5%N, 0%N) /\
+  enum_len [x5b; x31; x5d; x20; x78] = (VOk, 3%N).
 Proof. vm_compute. repeat split; reflexivity. Qed.
